@@ -124,8 +124,10 @@ func (o selectOp) ready() []int {
 	}
 	return r
 }
-func (o selectOp) Enabled() bool  { return o.hasDefault || len(o.ready()) > 0 }
-func (o selectOp) String() string { return fmt.Sprintf("select(%d cases, default=%v)", len(o.cases), o.hasDefault) }
+func (o selectOp) Enabled() bool { return o.hasDefault || len(o.ready()) > 0 }
+func (o selectOp) String() string {
+	return fmt.Sprintf("select(%d cases, default=%v)", len(o.cases), o.hasDefault)
+}
 
 // Select replaces a select statement: it returns the index of the clause to
 // run (-1 = default).  When several clauses are ready the choice is a recorded
